@@ -81,6 +81,7 @@ type Term struct {
 	sup  *support
 	ts   *bitset
 	tab  *[256]uint64
+	sz   int32 // tree size (capped)
 }
 
 func (t *Term) Sort() Sort    { return t.sort }
@@ -146,6 +147,14 @@ func (tt *TermTable) mk(op Op, sort Sort, val uint64, args ...*Term) *Term {
 	t := &Term{id: tt.nextID, op: op, sort: sort, val: val, n: int8(len(args))}
 	tt.nextID++
 	copy(t.a[:], args)
+	sz := int64(1)
+	for _, a := range args {
+		sz += int64(a.sz)
+	}
+	if sz > 1<<20 {
+		sz = 1 << 20
+	}
+	t.sz = int32(sz)
 	tt.tab[k] = t
 	return t
 }
